@@ -331,3 +331,27 @@ def run(A, R: Report, thorough: bool):
                 R.check('a' not in mode and 'x' not in mode and '+' not in mode.replace('w+', ''), 'R05.6', construct, key_of('open-mode', construct.split(':')[0], mode), f'opened with mode {mode} (truncates)',
                         f'the file is opened with mode `{mode}`: the partial file of an earlier failed attempt is extended (or blocks the new attempt) and the mixture is published', where=where(f, e.root_node))
     R.require(n_w >= 2, f'anchor: expected several file-opening writers on the save paths, found {n_w}')
+
+    # ---- R05.7 the directory a run writes into is never the visible one
+    R.rule('R05.7', 'the work directory that init_persistence hands to run() (`_dir`) is the temporary path on every path - never the published directory', floor=2)
+    datac7 = A.cls('Data')
+    n7 = 0
+    for ci_ in datac7.all_subclasses(include_self=False):
+        ip = ci_.methods.get('init_persistence')
+        if ip is None:
+            continue
+        stores = [n_ for n_ in A.typer.own_nodes(ip) if isinstance(n_, ast.Assign) and any(src(t_) == 'self._dir' for t_ in n_.targets)]
+        if not stores:
+            continue
+        probe = ast.parse('self.tmp_path', mode='eval').body
+        for st_ in stores:
+            n7 += 1
+            got = A.sym.terms_at(ip, ('inst', ci_), [st_.value]).get(id(st_.value), [])
+            want = A.sym.expr_term(probe, Ctx(ip, ('inst', ci_)))
+            from ..terms import normalise as _norm
+            ok7 = bool(got) and all(_norm(t_) == _norm(want) for t_ in got)
+            R.check(ok7, 'R05.7', f'{ci_.short}.init_persistence: `{src(st_)[:50]}`', key_of('work-dir', ci_.short, [pretty(t_)[:80] for t_ in got]), 'work directory = temporary path',
+                    f'the work directory is `{pretty(got[0])[:120] if got else "?"}`: a (forced) run then writes into the published directory itself - a reader sees a half-written result, and a failed run destroys the stored one',
+                    where=where(ip, st_))
+    R.require(n7 >= 2, 'anchor: no `self._dir = ...` store found in the init_persistence of directory data classes')
+
